@@ -1,4 +1,10 @@
 import AcraModel.Envelope.Detector
+import AcraModel.Envelope.ContainerLemmas
+import AcraModel.Envelope.BlockLemmas
+import AcraModel.Envelope.ProtectLemmas
+import AcraModel.Envelope.ScanLemmas
+import AcraModel.Envelope.ExampleOps
+import AcraModel.Crypto.Box
 /-!
 # C01 — protect-then-reveal returns the original bytes for the owning client
 
@@ -26,5 +32,916 @@ theorem fact_layout_tags :
     structTag = List.replicate 8 34 ∧ blockTag = List.replicate 4 34 ∧ containerTag = List.replicate 3 37 ∧
     idBlock = 240 ∧ idStruct = 241 ∧ Layout.blockKeyBackends = [0] ∧ Layout.blockDataBackends = [0] ∧
     Layout.blockKeyEncryptionBackendTypeSecureCell = 0 ∧ Layout.blockDataEncryptionBackendTypeSecureCell = 0 := by decide
+
+/-! ## the serialized container -/
+
+/-- Container round trip. Wrapping a non-empty envelope `e` of a registered kind into the serialized
+container `%%% | length | id | e` succeeds, `deserialize` gives back exactly `e` and the id – also when
+arbitrary bytes follow the container (it takes exactly the declared length) – and
+`ExtractSerializedContainer` on the container followed by arbitrary bytes reports exactly the
+container's length as the number of bytes to consume (the container handed to the callbacks is the
+whole rest of the buffer, as in the code). `e.length + 12 < 2^63` keeps the Go `int` conversion of the
+length field positive. -/
+theorem container_roundtrip (e : Bytes) (id : UInt8) (he : e ≠ []) (hlen : e.length + 12 < 2^63)
+    (hid : id = idBlock ∨ id = idStruct) :
+    ∃ p, serialize e id = .ok p ∧ deserialize p = .ok (e, id) ∧ p.length = e.length + 12 ∧
+      (∀ suffix, deserialize (p ++ suffix) = .ok (e, id)) ∧
+      (∀ suffix, extractContainer (p ++ suffix) = .ok ((p.length : Int), p ++ suffix)) := by
+  obtain ⟨k, hk⟩ := c01_kindOfId_some hid
+  refine ⟨serBytes e id, c01_serialize_eq id he, ?_, ?_, ?_, ?_⟩
+  · have := c01_deserialize_ser [] he hk (by omega)
+    simpa using this
+  · rw [c01_serBytes_length]; omega
+  · intro suffix
+    exact c01_deserialize_ser suffix he hk (by omega)
+  · intro suffix
+    exact c01_extractContainer_ser suffix he hk hlen
+
+/-! ## AcraBlock (symmetric envelope), library calls -/
+
+/-- With 32-byte hashes the key id stored in an AcraBlock really is 2 bytes. -/
+theorem keyId_length (c : CryptoOps) (hh : HashLen c) (key ctx : Bytes) : (keyId c key ctx).length = 2 := by
+  unfold keyId
+  rw [List.length_take, hh.sha_len]
+  decide
+
+/-- `CreateAcraBlock` succeeds for every non-empty message below the 4 GiB limit of the AEAD, every
+non-empty key and every context, as soon as the random source delivers its 56 bytes. -/
+theorem block_create_total (c : CryptoOps) (hs : SealLaws c) (key ctx m rnd : Bytes)
+    (hkey : key ≠ []) (hm : m ≠ []) (hml : m.length < maxMsgLen) (hr : 56 ≤ rnd.length) :
+    ∃ b, createBlock c key ctx m rnd = .ok b := by
+  have hn : nonceLen = 12 := rfl
+  have hmax : maxMsgLen = 2^32 := rfl
+  have h1 : c.enc (rnd.take 32) ctx m ((rnd.drop 32).take 12) ≠ none := by
+    intro h
+    rcases (hs.enc_none _ _ _ _).mp h with h | h | h | h
+    · exact hm h
+    · have := congrArg List.length h
+      rw [List.length_take, List.length_nil] at this
+      omega
+    · simp [hn] at h; omega
+    · omega
+  have h2 : c.enc key ctx (rnd.take 32) ((rnd.drop 44).take 12) ≠ none := by
+    intro h
+    rcases (hs.enc_none _ _ _ _).mp h with h | h | h | h
+    · have := congrArg List.length h
+      rw [List.length_take, List.length_nil] at this
+      omega
+    · exact hkey h
+    · simp [hn] at h; omega
+    · simp [hmax] at h; omega
+  cases h1' : c.enc (rnd.take 32) ctx m ((rnd.drop 32).take 12) with
+  | none => exact absurd h1' h1
+  | some encData =>
+    cases h2' : c.enc key ctx (rnd.take 32) ((rnd.drop 44).take 12) with
+    | none => exact absurd h2' h2
+    | some encKey =>
+      refine ⟨buildBlock (keyId c key ctx) encKey encData, ?_⟩
+      unfold createBlock
+      simp only [h1', h2']
+
+/-- AcraBlock round trip through the library calls. If `CreateAcraBlock` produced `b` for message `m`
+under `key` and context `ctx` (by `block_create_total` it does for every non-empty `m` below 4 GiB),
+then (1) `ExtractAcraBlockFromData` finds exactly `b` at the start of `b` followed by arbitrary bytes,
+and (2) `AcraBlock.Decrypt` with ANY key list that contains `key` returns exactly `m`, provided every
+key listed before it either has a different 2-byte key id or does not unseal the wrapped data key.
+Without key commitment nothing more can be said about earlier keys (an AEAD may accept a ciphertext
+under two keys); this hypothesis is exactly the "id collides: try, and on failure go on to the next
+key" logic of the code. `hkid` follows from `HashLen c` (`keyId_length`); the two length hypotheses
+follow from `SealLen c` and are explicit so that the theorem also applies to instances with key
+commitment. They are needed: an instance whose ciphertexts have 2^64 bytes or whose wrapped key has
+65536 bytes satisfies `SealLaws`, but the 8-byte resp. 2-byte length fields would wrap around.
+(`key ≠ []`, `m ≠ []`, `m.length < maxMsgLen`, `56 ≤ rnd.length` are implied by `hc`.) -/
+theorem block_roundtrip (c : CryptoOps) (hs : SealLaws c) (key ctx m rnd b : Bytes) (pre post : List Bytes)
+    (hkid : (keyId c key ctx).length = 2)
+    (hEncKey : ∀ encKey, c.enc key ctx (rnd.take 32) ((rnd.drop 44).take 12) = some encKey → encKey.length < 65536)
+    (hblen : b.length < 2^64)
+    (hc : createBlock c key ctx m rnd = .ok b)
+    (hpre : ∀ k' ∈ pre, ∀ encKey, c.enc key ctx (rnd.take 32) ((rnd.drop 44).take 12) = some encKey →
+      keyId c k' ctx = keyId c key ctx → c.dec k' ctx encKey = none) :
+    (∀ suffix, extractBlock (b ++ suffix) = .ok (b.length, b)) ∧
+    decryptBlock c (pre ++ key :: post) ctx b = .ok m := by
+  obtain ⟨encData, encKey, h1, h2, rfl⟩ := c01_createBlock_ok hc
+  refine ⟨fun suffix => c01_extractBlock_build _ _ _ suffix hkid hblen, ?_⟩
+  exact c01_decryptBlock_build c hs key ctx _ m encKey encData _ _ pre post hkid (hEncKey _ h2) h1 h2
+    (fun k' hk' hid => Or.inl (hpre k' hk' encKey h2 hid))
+
+/-- AcraBlock round trip under key commitment (`SealCommit`; deliberately no length law, see
+`Crypto/Ops.lean`): a ciphertext is accepted under one key only, so nothing has to be assumed about
+the other keys – ANY key list that contains the writer's key, at any position and with any other
+keys (colliding 2-byte ids included) before it, decrypts the block to exactly `m`. -/
+theorem block_roundtrip_commit (c : CryptoOps) (hs : SealLaws c) (hcm : SealCommit c)
+    (key ctx m rnd b : Bytes) (keys : List Bytes)
+    (hkid : (keyId c key ctx).length = 2)
+    (hEncKey : ∀ encKey, c.enc key ctx (rnd.take 32) ((rnd.drop 44).take 12) = some encKey → encKey.length < 65536)
+    (hblen : b.length < 2^64)
+    (hc : createBlock c key ctx m rnd = .ok b) (hmem : key ∈ keys) :
+    (∀ suffix, extractBlock (b ++ suffix) = .ok (b.length, b)) ∧
+    decryptBlock c keys ctx b = .ok m := by
+  obtain ⟨encData, encKey, h1, h2, rfl⟩ := c01_createBlock_ok hc
+  refine ⟨fun suffix => c01_extractBlock_build _ _ _ suffix hkid hblen, ?_⟩
+  obtain ⟨pre, post, rfl⟩ := List.append_of_mem hmem
+  refine c01_decryptBlock_build c hs key ctx _ m encKey encData _ _ pre post hkid (hEncKey _ h2) h1 h2 ?_
+  intro k' _ _
+  cases hd : c.dec k' ctx encKey with
+  | none => exact Or.inl rfl
+  | some d =>
+    obtain ⟨n, _, hn⟩ := hs.enc_of_dec _ _ _ _ hd
+    obtain ⟨_, _, hdd⟩ := hcm.enc_inj _ _ _ _ _ _ _ _ _ hn h2
+    exact Or.inr (by rw [hdd])
+
+/-! ## the registry handler: `protect` (EncryptWithClientID) and `reveal` (Process) -/
+
+/-- Input that already is a protected value – an envelope of the requested kind or a serialized
+container the registry recognises – is returned unchanged by `protect`, whatever the keys and the
+random stream: it is never wrapped a second time. -/
+theorem protect_passthrough (c : CryptoOps) (kv : KeyView) (k : Kind) (d rnd : Bytes)
+    (h : matchKind k d = true ∨ registryMatch d = true) : protect c kv k d rnd = .ok d :=
+  c01_protect_of_match c kv k d rnd h
+
+/-- If `protect` returned something different from its input, the input was not recognised as
+protected (so the handler of kind `k` really ran). -/
+theorem protect_ne_input (c : CryptoOps) (kv : KeyView) (k : Kind) (m rnd p : Bytes)
+    (hp : protect c kv k m rnd = .ok p) (hne : p ≠ m) : matchKind k m = false ∧ registryMatch m = false := by
+  refine ⟨?_, ?_⟩
+  · cases h : matchKind k m with
+    | false => rfl
+    | true => rw [c01_protect_of_match c kv k m rnd (Or.inl h)] at hp; cases hp; exact absurd rfl hne
+  · cases h : registryMatch m with
+    | false => rfl
+    | true => rw [c01_protect_of_match c kv k m rnd (Or.inr h)] at hp; cases hp; exact absurd rfl hne
+
+/-- A value protected as AcraBlock is never wrapped a second time: whatever `protect` produced for
+`m` (if it is not `m` itself, i.e. `m` was not already protected) is passed through unchanged by every
+further `protect`, for either envelope kind, any client's keys and any random stream. No crypto law is
+needed; the length hypotheses are those of `block_roundtrip` (`p.length < 2^63` is the container's
+length, it follows from `SealLen c` and `m.length < 2^32`). -/
+theorem protect_idempotent_block (c : CryptoOps) (kv : KeyView) (key m rnd p : Bytes)
+    (hW : kv.sym = some key) (hkid : (keyId c key []).length = 2) (hplen : p.length < 2^63)
+    (hp : protect c kv .block m rnd = .ok p) (hne : p ≠ m) :
+    ∀ (k' : Kind) (kv' : KeyView) (rnd' : Bytes), protect c kv' k' p rnd' = .ok p := by
+  obtain ⟨hnm, hnr⟩ := protect_ne_input c kv .block m rnd p hp hne
+  obtain ⟨e, he, hne', rfl⟩ := c01_protect_ok hp hnm hnr
+  obtain ⟨key', hk', hcb⟩ := c01_encryptKind_block he hnm
+  rw [hW] at hk'; cases hk'
+  obtain ⟨encData, encKey, _, _, rfl⟩ := c01_createBlock_ok hcb
+  rw [c01_serBytes_length] at hplen
+  intro k' kv' rnd'
+  apply c01_protect_of_match
+  right
+  have hx := c01_extractBlock_build (keyId c key []) encKey encData [] hkid (by omega)
+  rw [List.append_nil] at hx
+  have := c01_registryMatch_ser .block _ [] hne' (by omega) (by simp [matchKind, hx, Out.isOk])
+  simpa using this
+
+/-- Protect-then-reveal for the AcraBlock kind through the registry handler. The writer's key view
+`kvW` and the reader's `kvR` may differ in everything, as long as the reader's list of symmetric keys
+contains the writer's current key somewhere – in particular a value written before any number of key
+rotations stays readable. Earlier keys in the reader's list must not accidentally unseal the wrapped
+data key when their 2-byte id collides (see `block_roundtrip`; `reveal_protect_block_commit` removes
+this hypothesis under key commitment). The context is empty, as in the handlers. -/
+theorem reveal_protect_block (c : CryptoOps) (hs : SealLaws c) (kvW kvR : KeyView) (key m rnd p : Bytes)
+    (pre post : List Bytes)
+    (hkid : (keyId c key []).length = 2)
+    (hW : kvW.sym = some key) (hR : kvR.syms = some (pre ++ key :: post))
+    (hpre : ∀ k' ∈ pre, ∀ encKey, c.enc key [] (rnd.take 32) ((rnd.drop 44).take 12) = some encKey →
+      keyId c k' [] = keyId c key [] → c.dec k' [] encKey = none)
+    (hEncKey : ∀ encKey, c.enc key [] (rnd.take 32) ((rnd.drop 44).take 12) = some encKey → encKey.length < 65536)
+    (hplen : p.length < 2^63)
+    (hnm : matchKind .block m = false) (hnr : registryMatch m = false)
+    (hp : protect c kvW .block m rnd = .ok p) : reveal c kvR p = .ok m := by
+  obtain ⟨e, he, hne', rfl⟩ := c01_protect_ok hp hnm hnr
+  obtain ⟨key', hk', hcb⟩ := c01_encryptKind_block he hnm
+  rw [hW] at hk'; cases hk'
+  rw [c01_serBytes_length] at hplen
+  obtain ⟨hx, hd⟩ := block_roundtrip c hs key [] m rnd e pre post hkid hEncKey (by omega) hcb hpre
+  have hx0 := hx []
+  rw [List.append_nil] at hx0
+  have := c01_process_ser c kvR .block e [] hne' (by omega) (by simp [matchKind, hx0, Out.isOk])
+  rw [List.append_nil] at this
+  unfold reveal
+  rw [this]
+  exact c01_decryptKind_block c kvR e m _ hx0 hR hd
+
+/-- Protect-then-reveal for AcraBlocks under key commitment: the reader's key list only has to
+contain the writer's key; nothing is assumed about the other keys. -/
+theorem reveal_protect_block_commit (c : CryptoOps) (hs : SealLaws c) (hcm : SealCommit c) (kvW kvR : KeyView)
+    (key m rnd p : Bytes) (keys : List Bytes)
+    (hkid : (keyId c key []).length = 2)
+    (hW : kvW.sym = some key) (hR : kvR.syms = some keys) (hmem : key ∈ keys)
+    (hEncKey : ∀ encKey, c.enc key [] (rnd.take 32) ((rnd.drop 44).take 12) = some encKey → encKey.length < 65536)
+    (hplen : p.length < 2^63)
+    (hnm : matchKind .block m = false) (hnr : registryMatch m = false)
+    (hp : protect c kvW .block m rnd = .ok p) : reveal c kvR p = .ok m := by
+  obtain ⟨e, he, hne', rfl⟩ := c01_protect_ok hp hnm hnr
+  obtain ⟨key', hk', hcb⟩ := c01_encryptKind_block he hnm
+  rw [hW] at hk'; cases hk'
+  rw [c01_serBytes_length] at hplen
+  obtain ⟨hx, hd⟩ := block_roundtrip_commit c hs hcm key [] m rnd e keys hkid hEncKey (by omega) hcb hmem
+  have hx0 := hx []
+  rw [List.append_nil] at hx0
+  have := c01_process_ser c kvR .block e [] hne' (by omega) (by simp [matchKind, hx0, Out.isOk])
+  rw [List.append_nil] at this
+  unfold reveal
+  rw [this]
+  exact c01_decryptKind_block c kvR e m _ hx0 hR hd
+
+/-! ## the transparent column processor (`EnvelopeDetector.OnColumn`)
+
+`headStep cbs rest` (in `Envelope/ScanLemmas.lean`) is the decision one loop iteration takes on
+`rest = inBuffer[inIndex:]`: `skip` (copy one byte), `replace p n` (emit `p`, advance `n`), `fatal`,
+`panic`. `procAt cbs rest p n` is the condition under which it replaces: `rest` starts with `%%%`,
+`ExtractSerializedContainer` succeeds with `0 < n ≤ |rest|`, and the callbacks replace the container
+by `p`. -/
+
+/-- Embedded envelope, general form. If no position inside `pre` is processed (each one is skipped:
+not replaced, not fatal, no panic) and the loop processes `C` at the head of `C ++ suf` to `m`,
+consuming exactly `C.length` bytes, then scanning `pre ++ C ++ suf` gives `pre ++ m` followed by the
+result of scanning `suf` (fatal/panic of that rest propagate); the "envelope seen" flag is set. No
+byte of `pre` is lost or changed. -/
+theorem scan_embedded (cbs : List Callback) (pre C suf m : Bytes)
+    (hpre : ∀ i, i < pre.length → ∃ hit, headStep cbs ((pre ++ C ++ suf).drop i) = .skip hit)
+    (hC : C ≠ []) (hproc : procAt cbs (C ++ suf) m C.length) :
+    scan cbs (pre ++ C ++ suf) = (scan cbs suf).prepend (pre ++ m) true :=
+  c01_scan_embedded cbs pre C suf m hpre hC (c01_headStep_of_procAt hproc)
+
+/-- The same through `OnColumn` itself (which only adds the "shorter than a container / no callbacks"
+shortcut). -/
+theorem onColumn_embedded (cbs : List Callback) (pre C suf m : Bytes) (hcbs : cbs ≠ [])
+    (hlen : containerMin ≤ (pre ++ C ++ suf).length)
+    (hpre : ∀ i, i < pre.length → ∃ hit, headStep cbs ((pre ++ C ++ suf).drop i) = .skip hit)
+    (hC : C ≠ []) (hproc : procAt cbs (C ++ suf) m C.length) :
+    onColumn cbs (pre ++ C ++ suf) = (scan cbs suf).prepend (pre ++ m) true := by
+  rw [c01_onColumn_scan cbs _ hcbs hlen]
+  exact scan_embedded cbs pre C suf m hpre hC hproc
+
+/-- Plain data: if no position of the buffer is processed (every one is skipped), the column value is
+returned byte for byte. -/
+theorem scan_plain (cbs : List Callback) (buf : Bytes)
+    (h : ∀ i, i < buf.length → ∃ hit, headStep cbs (buf.drop i) = .skip hit) :
+    ∃ hit, scan cbs buf = .ok buf hit ∧ onColumn cbs buf = .ok buf (hit && decide (containerMin ≤ buf.length) && !cbs.isEmpty) := by
+  obtain ⟨hit, hs⟩ := c01_scan_plain cbs buf h
+  refine ⟨hit, hs, ?_⟩
+  unfold onColumn
+  by_cases hc : buf.length < containerMin ∨ cbs.isEmpty = true
+  · rw [if_pos hc]
+    rcases hc with hc | hc
+    · have : decide (containerMin ≤ buf.length) = false := by simp; omega
+      simp [this]
+    · simp [hc]
+  · rw [if_neg hc, hs]
+    have h1 : decide (containerMin ≤ buf.length) = true := by simp; omega
+    have h2 : cbs.isEmpty = false := by simpa using fun h => hc (Or.inr h)
+    simp [h1, h2]
+
+/-- Positions that do not start with a `%` byte are never processed – the concrete, checkable form
+of the hypothesis of `scan_embedded` / `scan_plain` for ordinary text around an envelope. -/
+theorem skip_of_no_tag_byte (cbs : List Callback) (pre rest : Bytes) (h : ∀ x ∈ pre, x ≠ 37) :
+    ∀ i, i < pre.length → ∃ hit, headStep cbs ((pre ++ rest).drop i) = .skip hit :=
+  c01_skip_of_no_tag_byte cbs pre rest h
+
+/-- The decrypt callback inside a column value. Let `e` be an envelope of kind `k` that the registry
+handler opens to `m` with the reader's keys `kv`, serialized as container `p = serBytes e k.id`. The
+callback list is `front ++ decryptCallback c kv :: rest` where the callbacks in `front` leave this
+container alone (`OldContainerDetectorWrapper` puts such a callback first). The callback receives the
+WHOLE rest of the buffer `p ++ suf`, but `deserialize` takes exactly the declared length, so it opens
+`e`; `OnColumn` then consumes exactly `p`. `m ≠ p ++ suf` is needed because the callback reports
+"unchanged" when its output equals its input (it follows from `SealLen c`: `p` is longer than `m`). -/
+theorem onColumn_reveal_embedded (c : CryptoOps) (kv : KeyView) (k : Kind) (e pre suf m : Bytes)
+    (front rest : List Callback)
+    (he : e ≠ []) (hlen : e.length + 12 < 2^63) (hmatch : matchKind k e = true)
+    (hdec : decryptKind c kv k e = .ok m) (hne : m ≠ serBytes e k.id ++ suf)
+    (hfront : ∀ cb ∈ front, cb (serBytes e k.id ++ suf) = .same ∨ cb (serBytes e k.id ++ suf) = .decErr)
+    (hpre : ∀ i, i < pre.length → ∃ hit,
+      headStep (front ++ decryptCallback c kv :: rest) ((pre ++ serBytes e k.id ++ suf).drop i) = .skip hit) :
+    process c kv (serBytes e k.id ++ suf) = .ok m ∧
+    onColumn (front ++ decryptCallback c kv :: rest) (pre ++ serBytes e k.id ++ suf) =
+      (scan (front ++ decryptCallback c kv :: rest) suf).prepend (pre ++ m) true := by
+  have hproc : process c kv (serBytes e k.id ++ suf) = .ok m := by
+    rw [c01_process_ser c kv k e suf he (by omega) hmatch, hdec]
+  refine ⟨hproc, ?_⟩
+  have hrun := c01_runCallbacks_front front rest hfront hproc hne
+  have hp := c01_procAt_ser _ k e suf m he hlen hrun
+  refine onColumn_embedded _ pre (serBytes e k.id) suf m (by simp) ?_ hpre ?_ hp
+  · rw [List.length_append, List.length_append, c01_serBytes_length]
+    show 12 ≤ _
+    omega
+  · intro h
+    have := congrArg List.length h
+    rw [c01_serBytes_length] at this
+    simp at this
+
+/-- Protect, store inside other bytes, read back through the transparent column processor (AcraBlock
+kind). `p` is what `protect` produced for `m` under the writer's key view; the column value is
+`bpre ++ p ++ suf`; the reader's key list contains the writer's key (hypotheses of
+`reveal_protect_block`). If no position inside `bpre` is processed, `OnColumn` returns `bpre ++ m`
+followed by the result of scanning `suf`. With `front = [fun _ => .same]` this is the callback list
+`OldContainerDetectorWrapper.OnColumn` runs. -/
+theorem onColumn_protect_embedded_block (c : CryptoOps) (hs : SealLaws c) (kvW kvR : KeyView)
+    (key m rnd p bpre suf : Bytes) (kpre kpost : List Bytes) (front rest : List Callback)
+    (hkid : (keyId c key []).length = 2)
+    (hW : kvW.sym = some key) (hR : kvR.syms = some (kpre ++ key :: kpost))
+    (hkpre : ∀ k' ∈ kpre, ∀ encKey, c.enc key [] (rnd.take 32) ((rnd.drop 44).take 12) = some encKey →
+      keyId c k' [] = keyId c key [] → c.dec k' [] encKey = none)
+    (hEncKey : ∀ encKey, c.enc key [] (rnd.take 32) ((rnd.drop 44).take 12) = some encKey → encKey.length < 65536)
+    (hplen : p.length < 2^63)
+    (hnm : matchKind .block m = false) (hnr : registryMatch m = false)
+    (hp : protect c kvW .block m rnd = .ok p)
+    (hne : m ≠ p ++ suf)
+    (hfront : ∀ cb ∈ front, cb (p ++ suf) = .same ∨ cb (p ++ suf) = .decErr)
+    (hskip : ∀ i, i < bpre.length → ∃ hit,
+      headStep (front ++ decryptCallback c kvR :: rest) ((bpre ++ p ++ suf).drop i) = .skip hit) :
+    onColumn (front ++ decryptCallback c kvR :: rest) (bpre ++ p ++ suf) =
+      (scan (front ++ decryptCallback c kvR :: rest) suf).prepend (bpre ++ m) true := by
+  obtain ⟨e, rfl, he, hlen, hmatch, hdec⟩ := c01_protect_block_facts c hs kvW kvR key m rnd p kpre kpost hkid hW hR
+    (fun k' hk' encKey h2 hid => Or.inl (hkpre k' hk' encKey h2 hid)) hEncKey hplen hnm hnr hp
+  exact (onColumn_reveal_embedded c kvR .block e bpre suf m front rest he hlen hmatch hdec hne hfront hskip).2
+
+/-- End to end for ordinary text around the value: if the bytes before and after the protected
+value contain no `%` (so nothing there can look like a container), `OnColumn` with the decrypt
+callback returns exactly `before ++ m ++ after`. -/
+theorem onColumn_protect_block_in_text (c : CryptoOps) (hs : SealLaws c) (kvW kvR : KeyView)
+    (key m rnd p bpre suf : Bytes) (kpre kpost : List Bytes)
+    (hkid : (keyId c key []).length = 2)
+    (hW : kvW.sym = some key) (hR : kvR.syms = some (kpre ++ key :: kpost))
+    (hkpre : ∀ k' ∈ kpre, ∀ encKey, c.enc key [] (rnd.take 32) ((rnd.drop 44).take 12) = some encKey →
+      keyId c k' [] = keyId c key [] → c.dec k' [] encKey = none)
+    (hEncKey : ∀ encKey, c.enc key [] (rnd.take 32) ((rnd.drop 44).take 12) = some encKey → encKey.length < 65536)
+    (hplen : p.length < 2^63)
+    (hnm : matchKind .block m = false) (hnr : registryMatch m = false)
+    (hp : protect c kvW .block m rnd = .ok p)
+    (hne : m ≠ p ++ suf)
+    (hbpre : ∀ x ∈ bpre, x ≠ 37) (hsuf : ∀ x ∈ suf, x ≠ 37) :
+    onColumn [decryptCallback c kvR] (bpre ++ p ++ suf) = .ok (bpre ++ m ++ suf) true := by
+  have h := onColumn_protect_embedded_block c hs kvW kvR key m rnd p bpre suf kpre kpost [] [] hkid hW hR hkpre
+    hEncKey hplen hnm hnr hp hne (by simp)
+    (by rw [List.append_assoc]; exact c01_skip_of_no_tag_byte _ bpre (p ++ suf) hbpre)
+  rw [List.nil_append] at h
+  have hs' := c01_skip_of_no_tag_byte [decryptCallback c kvR] suf [] hsuf
+  simp only [List.append_nil] at hs'
+  obtain ⟨hit, hsc⟩ := c01_scan_plain _ suf hs'
+  rw [h, hsc]
+  simp [ScanOut.prepend]
+
+/-! ## AcraStruct (asymmetric envelope) -/
+
+/-- `CreateAcrastruct` succeeds for every non-empty message below 4 GiB and every well-formed
+recipient key, as soon as the random source delivers its 88 bytes. -/
+theorem struct_create_total (c : CryptoOps) (hs : SealLaws c) (hm : MsgLaws c) (hk : KeygenLaws c)
+    (priv ctx m rnd : Bytes) (hpriv : c.validPriv priv = true)
+    (hne : m ≠ []) (hml : m.length < maxMsgLen) (hr : 88 ≤ rnd.length) :
+    ∃ s, createStruct c (c.pubOf priv) ctx m rnd = .ok s := by
+  have hn : nonceLen = 12 := rfl
+  have hmax : maxMsgLen = 2^32 := rfl
+  have hvalid : c.validPriv (c.privOfSeed (rnd.take 32)) = true :=
+    hk.valid_seed _ (by rw [List.length_take]; omega)
+  have h1 : c.wrap (c.privOfSeed (rnd.take 32)) (c.pubOf priv) ((rnd.drop 32).take 32) ((rnd.drop 64).take 12) ≠ none := by
+    intro h
+    rcases (hm.wrap_none _ _ _ _ hvalid hpriv).mp h with h | h | h
+    · have := congrArg List.length h
+      rw [List.length_take, List.length_drop, List.length_nil] at this
+      omega
+    · rw [List.length_take, List.length_drop, hn] at h; omega
+    · rw [List.length_take, List.length_drop, hmax] at h; omega
+  have h2 : c.enc ((rnd.drop 32).take 32) ctx m ((rnd.drop 76).take 12) ≠ none := by
+    intro h
+    rcases (hs.enc_none _ _ _ _).mp h with h | h | h | h
+    · exact hne h
+    · have := congrArg List.length h
+      rw [List.length_take, List.length_drop, List.length_nil] at this
+      omega
+    · rw [List.length_take, List.length_drop, hn] at h; omega
+    · omega
+  cases h1' : c.wrap (c.privOfSeed (rnd.take 32)) (c.pubOf priv) ((rnd.drop 32).take 32) ((rnd.drop 64).take 12) with
+  | none => exact absurd h1' h1
+  | some encKey =>
+    cases h2' : c.enc ((rnd.drop 32).take 32) ctx m ((rnd.drop 76).take 12) with
+    | none => exact absurd h2' h2
+    | some encData =>
+      refine ⟨structTag ++ c.pubOf (c.privOfSeed (rnd.take 32)) ++ encKey ++ leBytes 8 encData.length ++ encData, ?_⟩
+      unfold createStruct
+      simp only [h1', h2']
+
+/-- AcraStruct round trip through the library calls. If `CreateAcrastruct` produced `s` for message
+`m`, the public key of `priv` and context `ctx` (`struct_create_total`: it does for every non-empty
+`m` below 4 GiB), then `s` passes `ValidateAcraStructLength`, `ExtractAcraStruct` finds exactly `s`
+at the start of `s` followed by arbitrary bytes, and `DecryptRotatedAcrastruct` with ANY list of
+private keys that contains `priv` returns exactly `m`, provided every key listed before it fails on
+`s` (or happens to give the same answer). Nothing more can be said about earlier keys: the laws of
+Secure Message say nothing about unwrapping with a wrong or malformed key. `SealLen`/`MsgLen` give the
+byte layout (45-byte public key, 84-byte wrapped key) and keep the 8-byte length field and the Go
+`int` conversions exact; no commitment is assumed. (`m ≠ []`, `m.length < maxMsgLen`,
+`88 ≤ rnd.length` are implied by `hc`.) -/
+theorem struct_roundtrip (c : CryptoOps) (hs : SealLaws c) (hsl : SealLen c) (hm : MsgLaws c) (hml : MsgLen c)
+    (hk : KeygenLaws c) (priv ctx m rnd s : Bytes) (pre post : List Bytes)
+    (hpriv : c.validPriv priv = true)
+    (hc : createStruct c (c.pubOf priv) ctx m rnd = .ok s)
+    (hpre : ∀ k' ∈ pre, decryptStruct c k' ctx s = .err ∨ decryptStruct c k' ctx s = .ok m) :
+    validateStruct s = .ok () ∧
+    (∀ suffix, extractStruct (s ++ suffix) = .ok (s.length, s)) ∧
+    decryptStructRotated c ctx s (pre ++ priv :: post) = .ok m := by
+  obtain ⟨hval, hx, hd, _, _⟩ := c01_struct_roundtrip c hs hsl hm hml hk priv ctx m rnd s hpriv hc
+  exact ⟨hval, hx, c01_decryptStructRotated_found c ctx s priv m pre post hpre hd⟩
+
+/-- A value protected as AcraStruct is never wrapped a second time, by either envelope kind, any
+client's keys, any random stream. -/
+theorem protect_idempotent_struct (c : CryptoOps) (hs : SealLaws c) (hsl : SealLen c) (hml : MsgLen c)
+    (hk : KeygenLaws c) (kv : KeyView) (m rnd p : Bytes)
+    (hp : protect c kv .struct m rnd = .ok p) (hne : p ≠ m) :
+    ∀ (k' : Kind) (kv' : KeyView) (rnd' : Bytes), protect c kv' k' p rnd' = .ok p := by
+  obtain ⟨hnm, hnr⟩ := protect_ne_input c kv .struct m rnd p hp hne
+  obtain ⟨e, he, hne', rfl⟩ := c01_protect_ok hp hnm hnr
+  obtain ⟨pub, _, hcs⟩ := c01_encryptKind_struct he hnm
+  obtain ⟨encKey, encData, h1, h2, rfl⟩ := c01_createStruct_ok hcs
+  obtain ⟨_, _, hpub, hek, hed, hmlen, _⟩ := c01_createStruct_sizes hs hsl hml hk h1 h2
+  have hv : leVal (leBytes 8 encData.length) = encData.length := c01_leVal_leBytes8 (by omega)
+  have hval := c01_validateStruct_fields _ encKey (leBytes 8 encData.length) encData hpub hek (by simp) hv (by omega)
+  intro k' kv' rnd'
+  apply c01_protect_of_match
+  right
+  have hmk : matchKind .struct (structTag ++ c.pubOf (c.privOfSeed (rnd.take 32)) ++ encKey ++
+      leBytes 8 encData.length ++ encData) = true := by
+    unfold matchKind
+    simp only [hval]
+    rfl
+  have := c01_registryMatch_ser .struct _ [] hne'
+    (by simp [c01_structTag_length, hpub, hek]; omega) hmk
+  rw [List.append_nil] at this
+  exact this
+
+/-- Protect-then-reveal for the AcraStruct kind through the registry handler: the writer used the
+public key of `priv`; the reader's list of private keys contains `priv` anywhere (written before a
+rotation: still readable), earlier keys fail on the value (see `struct_roundtrip`). -/
+theorem reveal_protect_struct (c : CryptoOps) (hs : SealLaws c) (hsl : SealLen c) (hm : MsgLaws c) (hml : MsgLen c)
+    (hk : KeygenLaws c) (kvW kvR : KeyView) (priv m rnd p : Bytes) (pre post : List Bytes)
+    (hpriv : c.validPriv priv = true)
+    (hW : kvW.pub = some (c.pubOf priv)) (hR : kvR.privs = some (pre ++ priv :: post))
+    (hpre : ∀ k' ∈ pre, ∀ s, createStruct c (c.pubOf priv) [] m rnd = .ok s →
+      decryptStruct c k' [] s = .err ∨ decryptStruct c k' [] s = .ok m)
+    (hnm : matchKind .struct m = false) (hnr : registryMatch m = false)
+    (hp : protect c kvW .struct m rnd = .ok p) : reveal c kvR p = .ok m := by
+  obtain ⟨e, rfl, he, hlen, hmlen, hmatch, hdec⟩ := c01_protect_struct_facts c hs hsl hm hml hk kvW kvR priv m rnd p
+    pre post hpriv hW hR hpre hnm hnr hp
+  have := c01_process_ser c kvR .struct e [] he (by omega) hmatch
+  rw [List.append_nil] at this
+  unfold reveal
+  rw [this, hdec]
+
+/-- Protect as AcraStruct, store inside other bytes, read back through the transparent column
+processor (see `onColumn_protect_embedded_block`; here `m ≠ p ++ suf` holds automatically because the
+container is 201 bytes longer than `m`). -/
+theorem onColumn_protect_embedded_struct (c : CryptoOps) (hs : SealLaws c) (hsl : SealLen c) (hm : MsgLaws c)
+    (hml : MsgLen c) (hk : KeygenLaws c) (kvW kvR : KeyView) (priv m rnd p bpre suf : Bytes)
+    (kpre kpost : List Bytes) (front rest : List Callback)
+    (hpriv : c.validPriv priv = true)
+    (hW : kvW.pub = some (c.pubOf priv)) (hR : kvR.privs = some (kpre ++ priv :: kpost))
+    (hkpre : ∀ k' ∈ kpre, ∀ s, createStruct c (c.pubOf priv) [] m rnd = .ok s →
+      decryptStruct c k' [] s = .err ∨ decryptStruct c k' [] s = .ok m)
+    (hnm : matchKind .struct m = false) (hnr : registryMatch m = false)
+    (hp : protect c kvW .struct m rnd = .ok p)
+    (hfront : ∀ cb ∈ front, cb (p ++ suf) = .same ∨ cb (p ++ suf) = .decErr)
+    (hskip : ∀ i, i < bpre.length → ∃ hit,
+      headStep (front ++ decryptCallback c kvR :: rest) ((bpre ++ p ++ suf).drop i) = .skip hit) :
+    onColumn (front ++ decryptCallback c kvR :: rest) (bpre ++ p ++ suf) =
+      (scan (front ++ decryptCallback c kvR :: rest) suf).prepend (bpre ++ m) true := by
+  obtain ⟨e, rfl, he, hlen, hmlen, hmatch, hdec⟩ := c01_protect_struct_facts c hs hsl hm hml hk kvW kvR priv m rnd p
+    kpre kpost hpriv hW hR hkpre hnm hnr hp
+  have hne : m ≠ serBytes e Kind.struct.id ++ suf := by
+    intro h
+    have := congrArg List.length h
+    rw [List.length_append, c01_serBytes_length] at this
+    omega
+  exact (onColumn_reveal_embedded c kvR .struct e bpre suf m front rest he (by omega) hmatch hdec hne hfront hskip).2
+
+/-- End to end for ordinary text around an AcraStruct-protected value (no `%` before or after):
+`OnColumn` with the decrypt callback returns exactly `before ++ m ++ after`. -/
+theorem onColumn_protect_struct_in_text (c : CryptoOps) (hs : SealLaws c) (hsl : SealLen c) (hm : MsgLaws c)
+    (hml : MsgLen c) (hk : KeygenLaws c) (kvW kvR : KeyView) (priv m rnd p bpre suf : Bytes)
+    (kpre kpost : List Bytes)
+    (hpriv : c.validPriv priv = true)
+    (hW : kvW.pub = some (c.pubOf priv)) (hR : kvR.privs = some (kpre ++ priv :: kpost))
+    (hkpre : ∀ k' ∈ kpre, ∀ s, createStruct c (c.pubOf priv) [] m rnd = .ok s →
+      decryptStruct c k' [] s = .err ∨ decryptStruct c k' [] s = .ok m)
+    (hnm : matchKind .struct m = false) (hnr : registryMatch m = false)
+    (hp : protect c kvW .struct m rnd = .ok p)
+    (hbpre : ∀ x ∈ bpre, x ≠ 37) (hsuf : ∀ x ∈ suf, x ≠ 37) :
+    onColumn [decryptCallback c kvR] (bpre ++ p ++ suf) = .ok (bpre ++ m ++ suf) true := by
+  have h := onColumn_protect_embedded_struct c hs hsl hm hml hk kvW kvR priv m rnd p bpre suf kpre kpost [] []
+    hpriv hW hR hkpre hnm hnr hp (by simp)
+    (by rw [List.append_assoc]; exact c01_skip_of_no_tag_byte _ bpre (p ++ suf) hbpre)
+  rw [List.nil_append] at h
+  have hs' := c01_skip_of_no_tag_byte [decryptCallback c kvR] suf [] hsuf
+  simp only [List.append_nil] at hs'
+  obtain ⟨hit, hsc⟩ := c01_scan_plain _ suf hs'
+  rw [h, hsc]
+  simp [ScanOut.prepend]
+
+/-! ## both kinds at once
+
+`RoundTripHyps c k kvW kvR m rnd p` (in `Envelope/ProtectLemmas.lean`) is the hypothesis bundle of
+`reveal_protect_block` for `k = .block` and of `reveal_protect_struct` for `k = .struct`. -/
+
+/-- Protect-then-reveal, either kind: what `protect` produced for an unprotected value `m` under the
+writer's key view is opened to exactly `m` by `reveal` under any reader key view whose key list
+contains the writer's key (so also after key rotations). -/
+theorem reveal_protect (c : CryptoOps) (k : Kind) (kvW kvR : KeyView) (m rnd p : Bytes)
+    (h : RoundTripHyps c k kvW kvR m rnd p)
+    (hnm : matchKind k m = false) (hnr : registryMatch m = false)
+    (hp : protect c kvW k m rnd = .ok p) : reveal c kvR p = .ok m := by
+  cases k with
+  | block =>
+    obtain ⟨hs, key, pre, post, hkid, hW, hR, hpre, hek, hpl⟩ := h
+    exact reveal_protect_block c hs kvW kvR key m rnd p pre post hkid hW hR hpre hek hpl hnm hnr hp
+  | struct =>
+    obtain ⟨hs, hsl, hm, hml, hk, priv, pre, post, hpriv, hW, hR, hpre⟩ := h
+    exact reveal_protect_struct c hs hsl hm hml hk kvW kvR priv m rnd p pre post hpriv hW hR hpre hnm hnr hp
+
+/-- A protected value is never wrapped a second time, either kind: if `protect` changed its input,
+every further `protect` of the result – by either handler, for any client, with any randomness –
+returns it unchanged. -/
+theorem protect_idempotent (c : CryptoOps) (k : Kind) (kvW kvR : KeyView) (m rnd p : Bytes)
+    (h : RoundTripHyps c k kvW kvR m rnd p)
+    (hp : protect c kvW k m rnd = .ok p) (hne : p ≠ m) :
+    ∀ (k' : Kind) (kv' : KeyView) (rnd' : Bytes), protect c kv' k' p rnd' = .ok p := by
+  cases k with
+  | block =>
+    obtain ⟨_, key, _, _, hkid, hW, _, _, _, hpl⟩ := h
+    exact protect_idempotent_block c kvW key m rnd p hW hkid hpl hp hne
+  | struct =>
+    obtain ⟨hs, hsl, _, hml, hk, _⟩ := h
+    exact protect_idempotent_struct c hs hsl hml hk kvW m rnd p hp hne
+
+/-- Protect, embed in a column value, read through the transparent column processor, either kind:
+`OnColumn` returns the bytes before the protected value unchanged, then exactly `m`, then the result
+of scanning the bytes after it – provided no position before the value is processed and the
+callbacks before the decrypt callback leave the container alone. `m ≠ p ++ suf`: the callback reports
+"unchanged" if its output equals its input (automatic under `SealLen`). -/
+theorem onColumn_protect_embedded (c : CryptoOps) (k : Kind) (kvW kvR : KeyView) (m rnd p bpre suf : Bytes)
+    (front rest : List Callback)
+    (h : RoundTripHyps c k kvW kvR m rnd p)
+    (hnm : matchKind k m = false) (hnr : registryMatch m = false)
+    (hp : protect c kvW k m rnd = .ok p)
+    (hne : m ≠ p ++ suf)
+    (hfront : ∀ cb ∈ front, cb (p ++ suf) = .same ∨ cb (p ++ suf) = .decErr)
+    (hskip : ∀ i, i < bpre.length → ∃ hit,
+      headStep (front ++ decryptCallback c kvR :: rest) ((bpre ++ p ++ suf).drop i) = .skip hit) :
+    onColumn (front ++ decryptCallback c kvR :: rest) (bpre ++ p ++ suf) =
+      (scan (front ++ decryptCallback c kvR :: rest) suf).prepend (bpre ++ m) true := by
+  cases k with
+  | block =>
+    obtain ⟨hs, key, pre, post, hkid, hW, hR, hpre, hek, hpl⟩ := h
+    exact onColumn_protect_embedded_block c hs kvW kvR key m rnd p bpre suf pre post front rest hkid hW hR hpre hek
+      hpl hnm hnr hp hne hfront hskip
+  | struct =>
+    obtain ⟨hs, hsl, hm, hml, hk, priv, pre, post, hpriv, hW, hR, hpre⟩ := h
+    exact onColumn_protect_embedded_struct c hs hsl hm hml hk kvW kvR priv m rnd p bpre suf pre post front rest
+      hpriv hW hR hpre hnm hnr hp hfront hskip
+
+/-! ## totality and sizes (these discharge the explicit length hypotheses above under `SealLen`) -/
+
+/-- Under the length law of the AEAD an AcraBlock is exactly 138 bytes longer than its message
+(18 header + 76 wrapped data key + 44 seal overhead), and the wrapped data key has 76 bytes – so the
+explicit length hypotheses of `block_roundtrip` hold. -/
+theorem block_sizes (c : CryptoOps) (hs : SealLaws c) (hsl : SealLen c) (key ctx m rnd b : Bytes)
+    (hkid : (keyId c key ctx).length = 2) (hc : createBlock c key ctx m rnd = .ok b) :
+    b.length = m.length + 138 ∧ m.length < 2^32 ∧
+    ∀ encKey, c.enc key ctx (rnd.take 32) ((rnd.drop 44).take 12) = some encKey → encKey.length = 76 := by
+  obtain ⟨encData, encKey, h1, h2, rfl⟩ := c01_createBlock_ok hc
+  have hn : ¬ (rnd.take 32 = [] ∨ key = [] ∨ ((rnd.drop 44).take 12).length ≠ nonceLen ∨ maxMsgLen ≤ (rnd.take 32).length) := by
+    intro hcon
+    have := (hs.enc_none key ctx (rnd.take 32) ((rnd.drop 44).take 12)).mpr hcon
+    rw [h2] at this; cases this
+  have hm : ¬ (m = [] ∨ rnd.take 32 = [] ∨ ((rnd.drop 32).take 12).length ≠ nonceLen ∨ maxMsgLen ≤ m.length) := by
+    intro hcon
+    have := (hs.enc_none (rnd.take 32) ctx m ((rnd.drop 32).take 12)).mpr hcon
+    rw [h1] at this; cases this
+  simp only [not_or, Decidable.not_not, Nat.not_le] at hn hm
+  have hr : 56 ≤ rnd.length := by
+    have h := hn.2.2.1
+    rw [List.length_take, List.length_drop] at h
+    have : nonceLen = 12 := rfl
+    omega
+  have hso : sealOverhead = 44 := rfl
+  have hdek : (rnd.take 32).length = 32 := by rw [List.length_take]; omega
+  have hek : ∀ ek, c.enc key ctx (rnd.take 32) ((rnd.drop 44).take 12) = some ek → ek.length = 76 := by
+    intro ek h
+    rw [hsl.enc_len _ _ _ _ _ h, hdek, hso]
+  refine ⟨?_, hm.2.2.2, hek⟩
+  rw [c01_buildBlock_length _ _ _ hkid, hek _ h2, hsl.enc_len _ _ _ _ _ h1, hso]
+  omega
+
+/-- `protect` with the AcraBlock handler succeeds for every non-empty value below 4 GiB when the
+client has a (non-empty) current symmetric key and the random source delivers 56 bytes. -/
+theorem protect_block_total (c : CryptoOps) (hs : SealLaws c) (kv : KeyView) (key m rnd : Bytes)
+    (hW : kv.sym = some key) (hkey : key ≠ []) (hm : m ≠ []) (hml : m.length < maxMsgLen) (hr : 56 ≤ rnd.length) :
+    ∃ p, protect c kv .block m rnd = .ok p := by
+  by_cases hmatch : matchKind .block m = true ∨ registryMatch m = true
+  · exact ⟨m, c01_protect_of_match c kv .block m rnd hmatch⟩
+  · have hnm : matchKind .block m = false := by
+      cases h : matchKind .block m with
+      | false => rfl
+      | true => exact absurd (Or.inl h) hmatch
+    have hnr : registryMatch m = false := by
+      cases h : registryMatch m with
+      | false => rfl
+      | true => exact absurd (Or.inr h) hmatch
+    obtain ⟨b, hb⟩ := block_create_total c hs key [] m rnd hkey hm hml hr
+    obtain ⟨encData, encKey, _, _, hbb⟩ := c01_createBlock_ok hb
+    have hbne : b ≠ [] := by
+      rw [hbb]; unfold buildBlock
+      intro h
+      have := congrArg List.length h
+      simp [c01_blockTag_length] at this
+    refine ⟨serBytes b Kind.block.id, ?_⟩
+    unfold protect encryptKind
+    simp only [hnm, hnr, hW, hb, Bool.or_self, Bool.false_eq_true, if_false, Out.bind_ok]
+    exact c01_serialize_eq _ hbne
+
+/-- Under `SealLen` the container `protect` produces for an unprotected value with the AcraBlock
+handler is exactly 150 bytes longer than the value. -/
+theorem protect_block_length (c : CryptoOps) (hs : SealLaws c) (hsl : SealLen c) (kv : KeyView) (key m rnd p : Bytes)
+    (hW : kv.sym = some key) (hkid : (keyId c key []).length = 2)
+    (hnm : matchKind .block m = false) (hnr : registryMatch m = false)
+    (hp : protect c kv .block m rnd = .ok p) : p.length = m.length + 150 ∧ m.length < 2^32 := by
+  obtain ⟨e, he, _, rfl⟩ := c01_protect_ok hp hnm hnr
+  obtain ⟨key', hk', hcb⟩ := c01_encryptKind_block he hnm
+  rw [hW] at hk'; cases hk'
+  obtain ⟨hl, hm, _⟩ := block_sizes c hs hsl key [] m rnd e hkid hcb
+  rw [c01_serBytes_length, hl]
+  exact ⟨by omega, hm⟩
+
+/-- `protect` with the AcraStruct handler succeeds for every non-empty value below 4 GiB when the
+client has a well-formed public key and the random source delivers 88 bytes. -/
+theorem protect_struct_total (c : CryptoOps) (hs : SealLaws c) (hm : MsgLaws c) (hk : KeygenLaws c)
+    (kv : KeyView) (priv m rnd : Bytes) (hpriv : c.validPriv priv = true)
+    (hW : kv.pub = some (c.pubOf priv)) (hne : m ≠ []) (hml : m.length < maxMsgLen) (hr : 88 ≤ rnd.length) :
+    ∃ p, protect c kv .struct m rnd = .ok p := by
+  by_cases hmatch : matchKind .struct m = true ∨ registryMatch m = true
+  · exact ⟨m, c01_protect_of_match c kv .struct m rnd hmatch⟩
+  · have hnm : matchKind .struct m = false := by
+      cases h : matchKind .struct m with
+      | false => rfl
+      | true => exact absurd (Or.inl h) hmatch
+    have hnr : registryMatch m = false := by
+      cases h : registryMatch m with
+      | false => rfl
+      | true => exact absurd (Or.inr h) hmatch
+    obtain ⟨s, hsc⟩ := struct_create_total c hs hm hk priv [] m rnd hpriv hne hml hr
+    obtain ⟨encKey, encData, _, _, hss⟩ := c01_createStruct_ok hsc
+    have hsne : s ≠ [] := by
+      rw [hss]
+      intro h
+      have := congrArg List.length h
+      simp [c01_structTag_length] at this
+    refine ⟨serBytes s Kind.struct.id, ?_⟩
+    unfold protect encryptKind
+    simp only [hnm, hnr, hW, hsc, Bool.or_self, Bool.false_eq_true, if_false, Out.bind_ok]
+    exact c01_serialize_eq _ hsne
+
+/-- Under `SealLen`/`MsgLen` the container `protect` produces for an unprotected value with the
+AcraStruct handler is exactly 201 bytes longer than the value (12 container + 145 AcraStruct header +
+44 seal overhead). -/
+theorem protect_struct_length (c : CryptoOps) (hs : SealLaws c) (hsl : SealLen c) (hml : MsgLen c)
+    (hk : KeygenLaws c) (kv : KeyView) (m rnd p : Bytes)
+    (hnm : matchKind .struct m = false) (hnr : registryMatch m = false)
+    (hp : protect c kv .struct m rnd = .ok p) : p.length = m.length + 201 ∧ m.length < 2^32 := by
+  obtain ⟨e, he, _, rfl⟩ := c01_protect_ok hp hnm hnr
+  obtain ⟨pub, _, hcs⟩ := c01_encryptKind_struct he hnm
+  obtain ⟨encKey, encData, h1, h2, rfl⟩ := c01_createStruct_ok hcs
+  obtain ⟨_, _, hpub, hek, hed, hmlen, _⟩ := c01_createStruct_sizes hs hsl hml hk h1 h2
+  refine ⟨?_, hmlen⟩
+  rw [c01_serBytes_length]
+  simp [c01_structTag_length, hpub, hek, hed]
+  omega
+
+/-! ## the empty value -/
+
+/-- The empty byte string is not a protected value for any handler … -/
+theorem empty_not_protected (k : Kind) : matchKind k [] = false ∧ registryMatch [] = false := by
+  cases k <;> exact ⟨by decide, by decide⟩
+
+/-- … and it cannot be protected: `protect` returns an error (no panic, no output) for the empty
+value, for both envelope kinds, any keys and any random stream. The code relies on Themis rejecting
+empty messages; in the model this is the `m = []` case of `SealLaws.enc_none`, the only law needed
+(for the AcraStruct the symmetric key may or may not get wrapped first – the seal of the empty
+message fails either way). -/
+theorem protect_empty_err (c : CryptoOps) (hs : SealLaws c) (kv : KeyView) (k : Kind) (rnd : Bytes) :
+    protect c kv k [] rnd = .err := by
+  obtain ⟨h1, h2⟩ := empty_not_protected k
+  have henc : ∀ key ctx n, c.enc key ctx [] n = none := fun key ctx n =>
+    (hs.enc_none key ctx [] n).mpr (Or.inl rfl)
+  unfold protect
+  rw [h1, h2]
+  simp only [Bool.or_self, Bool.false_eq_true, if_false]
+  unfold encryptKind
+  rw [h1]
+  simp only [Bool.false_eq_true, if_false]
+  cases k with
+  | struct =>
+    simp only
+    cases kv.pub with
+    | none => rfl
+    | some pub =>
+      simp only
+      unfold createStruct
+      simp only [henc]
+      cases c.wrap (c.privOfSeed (rnd.take 32)) pub ((rnd.drop 32).take 32) ((rnd.drop 64).take 12) <;> rfl
+  | block =>
+    simp only
+    cases kv.sym with
+    | none => rfl
+    | some key =>
+      simp only
+      unfold createBlock
+      simp only [henc]
+      rfl
+
+/-! ## non-vacuity: every hypothesis bundle above is satisfied by a concrete instance -/
+
+
+
+
+/-- 1: block_roundtrip is applicable: stand-in instance, a key with a different id before the
+writer's key, another key after it -/
+example : ∃ b, createBlock toyOps [1,2,3] [7] [9,9] (List.replicate 56 5) = .ok b ∧
+    (∀ suffix, extractBlock (b ++ suffix) = .ok (b.length, b)) ∧
+    decryptBlock toyOps ([[4,5]] ++ [1,2,3] :: [[1,2,9]]) [7] b = .ok [9,9] := by
+  have hs := toy_sealLaws
+  have hsl := toy_sealLen
+  obtain ⟨b, hb⟩ := block_create_total toyOps hs [1,2,3] [7] [9,9] (List.replicate 56 5) (by decide) (by decide)
+    (by decide) (by decide)
+  have hkid := keyId_length toyOps toy_hashLen [1,2,3] [7]
+  obtain ⟨hl, _, hek⟩ := block_sizes toyOps hs hsl _ _ _ _ b hkid hb
+  refine ⟨b, hb, block_roundtrip toyOps hs [1,2,3] [7] [9,9] _ b [[4,5]] [[1,2,9]] hkid
+    (fun ek h => by rw [hek ek h]; decide) (by rw [hl]; decide) hb ?_⟩
+  intro k' hk' encKey _ hid
+  simp only [List.mem_singleton] at hk'
+  subst hk'
+  exact absurd hid (by decide)
+
+
+
+/-- 1': block_roundtrip_commit is applicable: the transparent-box instance (which has key
+commitment), an earlier key `[1,2,4]` whose 2-byte id collides with the writer's `[1,2,3]` -/
+example : keyId boxOps [1,2,4] [] = keyId boxOps [1,2,3] [] ∧
+    ∃ b, createBlock boxOps [1,2,3] [] [9,9] (List.replicate 56 5) = .ok b ∧
+    (∀ suffix, extractBlock (b ++ suffix) = .ok (b.length, b)) ∧
+    decryptBlock boxOps [[1,2,4], [1,2,3]] [] b = .ok [9,9] := by
+  refine ⟨by decide, ?_⟩
+  obtain ⟨b, hb⟩ := block_create_total boxOps Box.sealLaws [1,2,3] [] [9,9] (List.replicate 56 5) (by decide) (by decide)
+    (by decide) (by decide)
+  have hkid : (keyId boxOps [1,2,3] []).length = 2 := by decide
+  have hek : ∀ encKey, boxOps.enc [1,2,3] [] ((List.replicate 56 5).take 32) (((List.replicate 56 (5:UInt8)).drop 44).take 12) = some encKey →
+      encKey.length < 65536 := by
+    intro encKey h
+    have : boxOps.enc [1,2,3] [] ((List.replicate 56 5).take 32) (((List.replicate 56 (5:UInt8)).drop 44).take 12) =
+        some (Box.esc [1,2,3] ++ (Box.esc [] ++ (Box.esc (List.replicate 12 5) ++ List.replicate 32 5))) := by decide
+    rw [this] at h
+    cases h
+    decide
+  have hbl : b.length < 2^64 := by
+    obtain ⟨encData, encKey, h1, h2, rfl⟩ := c01_createBlock_ok hb
+    have e1 : boxOps.enc ((List.replicate 56 5).take 32) [] [9,9] (((List.replicate 56 (5:UInt8)).drop 32).take 12) =
+        some (Box.esc (List.replicate 32 5) ++ (Box.esc [] ++ (Box.esc (List.replicate 12 5) ++ [9,9]))) := by decide
+    have e2 : boxOps.enc [1,2,3] [] ((List.replicate 56 5).take 32) (((List.replicate 56 (5:UInt8)).drop 44).take 12) =
+        some (Box.esc [1,2,3] ++ (Box.esc [] ++ (Box.esc (List.replicate 12 5) ++ List.replicate 32 5))) := by decide
+    rw [e1] at h1; rw [e2] at h2
+    cases h1; cases h2
+    rw [c01_buildBlock_length _ _ _ hkid]
+    decide
+  exact ⟨b, hb, block_roundtrip_commit boxOps Box.sealLaws Box.sealCommit [1,2,3] [] [9,9] _ b [[1,2,4], [1,2,3]]
+    hkid hek hbl hb (by simp)⟩
+
+
+
+
+
+/-- 4/5/6 (AcraBlock kind): written with key `[1,2,3]`, read with the rotated key list
+`[[4,5], [1,2,3], [1,2,9]]`; the protected value sits behind the prefix `%%` (two bytes that look like
+the beginning of a container tag) and before `cd` -/
+example :
+    let kvW : KeyView := ⟨none, none, some [1,2,3], none⟩
+    let kvR : KeyView := ⟨none, none, some [4,5], some ([[4,5]] ++ [1,2,3] :: [[1,2,9]])⟩
+    ∃ p, protect toyOps kvW .block [9,9] (List.replicate 56 5) = .ok p ∧ reveal toyOps kvR p = .ok [9,9] ∧
+      (∀ k' kv' rnd', protect toyOps kv' k' p rnd' = .ok p) ∧
+      onColumn [decryptCallback toyOps kvR] ([37,37] ++ p ++ [99,100]) = .ok ([37,37] ++ [9,9] ++ [99,100]) true := by
+  intro kvW kvR
+  have hs := toy_sealLaws
+  have hsl := toy_sealLen
+  have hkid := keyId_length toyOps toy_hashLen [1,2,3] []
+  have hnm : matchKind .block [9,9] = false := by decide
+  have hnr : registryMatch [9,9] = false := by decide
+  obtain ⟨p, hp⟩ := protect_block_total toyOps hs kvW [1,2,3] [9,9] (List.replicate 56 5) rfl (by decide) (by decide)
+    (by decide) (by decide)
+  obtain ⟨hpl, _⟩ := protect_block_length toyOps hs hsl kvW [1,2,3] [9,9] _ p rfl hkid hnm hnr hp
+  have hpl' : p.length = 152 := hpl
+  have hek : ∀ encKey, toyOps.enc [1,2,3] [] ((List.replicate 56 5).take 32) (((List.replicate 56 (5:UInt8)).drop 44).take 12) = some encKey →
+      encKey.length < 65536 := by
+    intro ek h
+    have := hsl.enc_len _ _ _ _ _ h
+    rw [this]; decide
+  have hkpre : ∀ k' ∈ [[4,5]], ∀ encKey, toyOps.enc [1,2,3] [] ((List.replicate 56 5).take 32) (((List.replicate 56 (5:UInt8)).drop 44).take 12) = some encKey →
+      keyId toyOps k' [] = keyId toyOps [1,2,3] [] → toyOps.dec k' [] encKey = none := by
+    intro k' hk' encKey _ hid
+    simp only [List.mem_singleton] at hk'
+    subst hk'
+    exact absurd hid (by decide)
+  have hne : ∀ suf : Bytes, [9,9] ≠ p ++ suf := by
+    intro suf h
+    have := congrArg List.length h
+    rw [List.length_append, hpl'] at this
+    simp at this
+    omega
+  have hH : RoundTripHyps toyOps .block kvW kvR [9,9] (List.replicate 56 5) p :=
+    ⟨hs, [1,2,3], [[4,5]], [[1,2,9]], hkid, rfl, rfl, hkpre, hek, by rw [hpl']; decide⟩
+  refine ⟨p, hp, ?_, ?_, ?_⟩
+  · exact reveal_protect toyOps .block kvW kvR [9,9] _ p hH hnm hnr hp
+  · exact protect_idempotent toyOps .block kvW kvR [9,9] _ p hH hp
+      (by have := hne []; rw [List.append_nil] at this; exact fun h => this h.symm)
+  · have h := onColumn_protect_embedded toyOps .block kvW kvR [9,9] _ p [37,37] [99,100] [] [] hH
+      hnm hnr hp (hne _) (by simp) ?_
+    · rw [List.nil_append] at h
+      obtain ⟨hit, hsc⟩ := c01_scan_plain [decryptCallback toyOps kvR] [99,100]
+        (by have := c01_skip_of_no_tag_byte [decryptCallback toyOps kvR] [99,100] [] (by decide)
+            simpa using this)
+      rw [h, hsc]
+      simp [ScanOut.prepend]
+    · -- the two `%` positions of the prefix: byte 11 from there is a byte of the length field, not an envelope id
+      obtain ⟨e, he, _, rfl⟩ := c01_protect_ok hp hnm hnr
+      have hel : e.length = 140 := by rw [c01_serBytes_length] at hpl'; omega
+      intro i hi
+      have hi' : i = 0 ∨ i = 1 := by simp at hi; omega
+      refine ⟨false, ?_⟩
+      rcases hi' with rfl | rfl
+      · apply c01_headStep_pct_bad_id
+        intro x hx
+        unfold serBytes at hx
+        rw [hel] at hx
+        have : x = 0 := by
+          simp [containerTag, toBytes, Layout.containerTag, containerMin, Layout.containerMinSize, leBytes] at hx
+          exact hx.symm
+        subst this; decide
+      · apply c01_headStep_pct_bad_id
+        intro x hx
+        unfold serBytes at hx
+        rw [hel] at hx
+        have : x = 0 := by
+          simp [containerTag, toBytes, Layout.containerTag, containerMin, Layout.containerMinSize, leBytes] at hx
+          exact hx.symm
+        subst this; decide
+
+
+
+/-- 2: struct_roundtrip is applicable to the executable stand-in instance (`H` = SHA-256): a generated
+key pair, the reader's list has the right key first and another key after it -/
+example :
+    let priv := shimOps.privOfSeed (List.replicate 32 1)
+    let other := shimOps.privOfSeed (List.replicate 32 2)
+    ∃ s, createStruct shimOps (shimOps.pubOf priv) [7] [1,2,3] (List.replicate 88 7) = .ok s ∧
+      validateStruct s = .ok () ∧ (∀ suffix, extractStruct (s ++ suffix) = .ok (s.length, s)) ∧
+      decryptStructRotated shimOps [7] s ([] ++ priv :: [other]) = .ok [1,2,3] := by
+  intro priv other
+  have hpriv : shimOps.validPriv priv = true := shim_keygenLaws.valid_seed _ (by decide)
+  obtain ⟨s, hsc⟩ := struct_create_total shimOps shim_sealLaws shim_msgLaws shim_keygenLaws priv [7] [1,2,3]
+    (List.replicate 88 7) hpriv (by decide) (by decide) (by decide)
+  exact ⟨s, hsc, struct_roundtrip shimOps shim_sealLaws shim_sealLen shim_msgLaws shim_msgLen shim_keygenLaws
+    priv [7] [1,2,3] _ s [] [other] hpriv hsc (by simp)⟩
+
+/-- 4/5/6 (AcraStruct kind) on the executable stand-in instance: protect with the public key, reveal
+with a key list that has the matching private key first, never wrapped twice, found inside text -/
+example :
+    let priv := shimOps.privOfSeed (List.replicate 32 1)
+    let other := shimOps.privOfSeed (List.replicate 32 2)
+    let kvW : KeyView := ⟨some (shimOps.pubOf priv), none, none, none⟩
+    let kvR : KeyView := ⟨none, some ([] ++ priv :: [other]), none, none⟩
+    ∃ p, protect shimOps kvW .struct [1,2,3] (List.replicate 88 7) = .ok p ∧ reveal shimOps kvR p = .ok [1,2,3] ∧
+      (∀ k' kv' rnd', protect shimOps kv' k' p rnd' = .ok p) ∧
+      onColumn [decryptCallback shimOps kvR] ([97,98] ++ p ++ [99,100]) = .ok ([97,98] ++ [1,2,3] ++ [99,100]) true := by
+  intro priv other kvW kvR
+  have hpriv : shimOps.validPriv priv = true := shim_keygenLaws.valid_seed _ (by decide)
+  have hnm : matchKind .struct [1,2,3] = false := by decide
+  have hnr : registryMatch [1,2,3] = false := by decide
+  obtain ⟨p, hp⟩ := protect_struct_total shimOps shim_sealLaws shim_msgLaws shim_keygenLaws kvW priv [1,2,3]
+    (List.replicate 88 7) hpriv rfl (by decide) (by decide) (by decide)
+  obtain ⟨hpl, _⟩ := protect_struct_length shimOps shim_sealLaws shim_sealLen shim_msgLen shim_keygenLaws kvW _ _ p hnm hnr hp
+  have hH : RoundTripHyps shimOps .struct kvW kvR [1,2,3] (List.replicate 88 7) p :=
+    ⟨shim_sealLaws, shim_sealLen, shim_msgLaws, shim_msgLen, shim_keygenLaws, priv, [], [other], hpriv, rfl, rfl, by simp⟩
+  refine ⟨p, hp, ?_, ?_, ?_⟩
+  · exact reveal_protect shimOps .struct kvW kvR [1,2,3] _ p hH hnm hnr hp
+  · exact protect_idempotent shimOps .struct kvW kvR [1,2,3] _ p hH hp
+      (by intro h; rw [h] at hpl; simp at hpl)
+  · exact onColumn_protect_struct_in_text shimOps shim_sealLaws shim_sealLen shim_msgLaws shim_msgLen shim_keygenLaws
+      kvW kvR priv [1,2,3] _ p [97,98] [99,100] [] [other] hpriv rfl rfl (by simp) hnm hnr hp (by decide) (by decide)
+
+
+/-- 3: container_roundtrip is applicable -/
+example : ∃ p, serialize [1,2,3] idStruct = .ok p ∧ deserialize (p ++ [5]) = .ok ([1,2,3], idStruct) := by
+  obtain ⟨p, h1, _, _, h4, _⟩ := container_roundtrip [1,2,3] idStruct (by decide) (by decide) (Or.inr rfl)
+  exact ⟨p, h1, h4 [5]⟩
+
+/-- 7: the hypotheses of protect_empty_err hold for both instances -/
+example : protect shimOps ⟨none, none, some [1], none⟩ .block [] [] = .err ∧
+    protect boxOps ⟨some [1], none, none, none⟩ .struct [] [] = .err :=
+  ⟨protect_empty_err shimOps shim_sealLaws _ _ _, protect_empty_err boxOps Box.sealLaws _ _ _⟩
 
 end AcraModel.Props.C01
